@@ -5,6 +5,7 @@ package main
 // recipient's encrypted key) must make verification / decryption with THAT key fail.
 
 import (
+	"strings"
 	"bytes"
 	"encoding/base64"
 	"encoding/json"
@@ -190,6 +191,33 @@ func c16multi(c *h.Ctx, r *h.Rand) {
 			for _, i := range combo {
 				cl := decrypt(text, rpool[i].dec)
 				c.Hold(cl == "ok", "C16_roundtrip.multi", id+" decrypt with "+rpool[i].name, cl, "ok")
+			}
+			// the recipient loop against the model (Oryx.Jose.jweDecryptLoop): for a caller key, what each entry in
+			// order does under that key — r: an entry for this very key; w: RSA1_5 entry for ANOTHER RSA key (key
+			// decryption hands back a random CEK, no error); n: anything else (key decryption fails). Callers: every
+			// recipient, and keys that are no recipient at all.
+			keyID := []string{"k0", "k1", "r0", "r1", "ec", "g0", "r0", "r1"}
+			isRSA := func(id string) bool { return id[0] == 'r' }
+			callers := []struct {
+				id  string
+				key interface{}
+			}{{"k0", ks.syms[16][0]}, {"k1", ks.syms[16][1]}, {"r0", ks.rsa[0]}, {"r1", ks.rsa[1]}, {"ec", ec}, {"g0", ks.syms[32][0]},
+				{"ec384", ks.ec["P-384"][0]}, {"g1", ks.syms[32][1]}}
+			for _, cal := range callers {
+				vec := ""
+				for _, j := range combo {
+					switch {
+					case keyID[j] == cal.id:
+						vec += "r"
+					case rpool[j].alg == jose.RSA1_5 && isRSA(cal.id):
+						vec += "w"
+					default:
+						vec += "n"
+					}
+				}
+				cl := decrypt(text, cal.key)
+				want := strings.Fields(c.O.Call("jose.jwe.multi", vec, "0"))[0]
+				c.Eq("jwe.multi.loop", fmt.Sprintf("jose.jwe.multi %s 0 (%s, caller %s)", vec, id, cal.id), cl, want)
 			}
 			var raw map[string]json.RawMessage
 			var rcps []map[string]json.RawMessage
